@@ -173,15 +173,32 @@ def run(ctx):
             scaled['Qf'] = (X * np.array(fac)[:, None]).tolist()
             items.append((scaled, scheme, {}))
             meta.append(('scaled', 'order_close'))
-            # (iv) negative raw value in each encoding
-            for enc in ('dense', 'csr', 'csc'):
+            # (iv) negative raw value in each encoding (dense also in HDF5 chunks wider than tall, the negative
+            # value then in the last column)
+            for enc in ('dense', 'csr', 'csc', 'dense_chunked'):
                 neg = copy.deepcopy(raw)
                 neg['cfg']['enc'] = enc
                 Xn = X.copy()
-                Xn[rng.randrange(len(Xn)), rng.randrange(Xn.shape[1])] = -1.0 * rng.randint(1, 3)
+                Xn[rng.randrange(len(Xn)), rng.randrange(Xn.shape[1]) if enc != 'dense_chunked' else Xn.shape[1] - 1] = \
+                    -1.0 * rng.randint(1, 3)
                 neg['Qf'] = Xn.tolist()
                 items.append((neg, scheme, {}))
                 meta.append(('negative', enc))
+            # (i') the query lists the reference genes in reference order (all markers adjacent); the image keeps
+            # the first and the last column and permutes the inner ones
+            refbase = copy.deepcopy(base)
+            refbase['qgenes'] = list(range(1, base['G'] + 1)) + [base['G'] + 5]
+            refbase['Q'] = [[rng.randint(0, 9) for _ in refbase['qgenes']] for _ in base['cells']]
+            items.append((refbase, scheme, {}))
+            meta.append(('base', None))
+            img = copy.deepcopy(refbase)
+            inner = list(range(1, base['G'] - 1))
+            rng.shuffle(inner)
+            perm = [0] + inner + [base['G'] - 1, base['G']]
+            img['qgenes'] = [refbase['qgenes'][i] for i in perm]
+            img['Q'] = [[row[i] for i in perm] for row in refbase['Q']]
+            items.append((img, scheme, {}))
+            meta.append(('perm', 'order_bits'))
         # (iv') large sparse raw queries (several HDF5 chunks of X/data) with the negative value in
         # the tail of the data array / in the middle / at the start
         for enc in ('csr', 'csc'):
